@@ -52,14 +52,17 @@ func (g *Gate) WaitReached(d time.Duration) bool {
 func (g *Gate) Release() { g.ronce.Do(func() { close(g.release) }) }
 
 type Runtime struct {
-	mu      sync.Mutex
-	events  []Event
-	connIDs map[uintptr]int
-	ptrIDs  map[uintptr]int
-	counts  map[string]int
-	gates   []*Gate
-	seed    uint64
-	start   time.Time
+	mu         sync.Mutex
+	events     []Event
+	connIDs    map[uintptr]int
+	ptrIDs     map[uintptr]int
+	nextPtr    int
+	nextConn   int
+	srvPending map[uintptr]bool
+	counts     map[string]int
+	gates      []*Gate
+	seed       uint64
+	start      time.Time
 	// DelayMode: 0 none, 1 yields, 2 yields and micro-sleeps
 	DelayMode int32
 	// NoTrace: do not take the trace mutex at all (race-detector runs: the mutex would add
@@ -71,7 +74,7 @@ type Runtime struct {
 var current atomic.Pointer[Runtime]
 
 func New(seed int64) *Runtime {
-	return &Runtime{connIDs: map[uintptr]int{}, ptrIDs: map[uintptr]int{}, counts: map[string]int{}, seed: uint64(seed), start: time.Now()}
+	return &Runtime{connIDs: map[uintptr]int{}, ptrIDs: map[uintptr]int{}, srvPending: map[uintptr]bool{}, counts: map[string]int{}, seed: uint64(seed), start: time.Now()}
 }
 
 // Install makes rt the receiver of every hook call.  VerifHook itself is set once.
@@ -118,6 +121,27 @@ func CanonID(v interface{}) interface{} {
 	return map[string]interface{}{"t": "invalid", "v": fmt.Sprint(v)}
 }
 
+// creation sites: the object named by this key at this site has just been created.  Its address may be the
+// address of an object that was freed earlier in the run (the allocator reuses memory), so it gets a fresh
+// canonical id instead of inheriting the old object's.
+var createdAt = map[string]string{
+	"call.enq":       "a",  // the attempt's ready channel
+	"call.cancelenq": "ca", // the cancel request's ready channel
+	"sink.new":       "s",  // the caller's channel of a subscription
+	"h.subch":        "hp", // the handler's channel of a subscription (harness log)
+}
+
+func (r *Runtime) canonAt(site, key string, v interface{}) interface{} {
+	if createdAt[site] == key {
+		if p, ok := ptrOf(v); ok {
+			r.nextPtr++
+			r.ptrIDs[p] = r.nextPtr
+			return r.nextPtr
+		}
+	}
+	return r.canon(key, v)
+}
+
 func (r *Runtime) canon(key string, v interface{}) interface{} {
 	if key == "id" {
 		return CanonID(v)
@@ -125,7 +149,8 @@ func (r *Runtime) canon(key string, v interface{}) interface{} {
 	if p, ok := ptrOf(v); ok {
 		id, seen := r.ptrIDs[p]
 		if !seen {
-			id = len(r.ptrIDs) + 1
+			r.nextPtr++
+			id = r.nextPtr
 			r.ptrIDs[p] = id
 		}
 		return id
@@ -162,8 +187,17 @@ func (r *Runtime) hook(site string, conn interface{}, kv ...interface{}) {
 		cid := 0
 		if p, ok := ptrOf(conn); ok {
 			id, seen := r.connIDs[p]
-			if !seen {
-				id = len(r.connIDs) + 1
+			// a connection object is new at srv.conn (server role) or, for a client, at main.start when no
+			// srv.conn preceded it on this object: do not inherit the id of a freed connection at the same address
+			fresh := site == "srv.conn" || (site == "main.start" && !r.srvPending[p])
+			if site == "srv.conn" {
+				r.srvPending[p] = true
+			} else if site == "main.start" {
+				delete(r.srvPending, p)
+			}
+			if !seen || fresh {
+				r.nextConn++
+				id = r.nextConn
 				r.connIDs[p] = id
 			}
 			cid = id
@@ -173,7 +207,7 @@ func (r *Runtime) hook(site string, conn interface{}, kv ...interface{}) {
 			ev.KV = map[string]interface{}{}
 			for i := 0; i+1 < len(kv); i += 2 {
 				k := fmt.Sprint(kv[i])
-				ev.KV[k] = r.canon(k, kv[i+1])
+				ev.KV[k] = r.canonAt(site, k, kv[i+1])
 			}
 		}
 		r.events = append(r.events, ev)
@@ -230,7 +264,7 @@ func (r *Runtime) Log(site string, kv ...interface{}) {
 		ev.KV = map[string]interface{}{}
 		for i := 0; i+1 < len(kv); i += 2 {
 			k := fmt.Sprint(kv[i])
-			ev.KV[k] = r.canon(k, kv[i+1])
+			ev.KV[k] = r.canonAt(site, k, kv[i+1])
 		}
 	}
 	r.events = append(r.events, ev)
